@@ -26,14 +26,21 @@ fn tid() -> u64 {
 
 /// Set by drivers that steer fault injection by protocol phase: true between the first allocation of a
 /// write batch and the batch's failure / publication.
-pub static IN_BATCH: std::sync::atomic::AtomicBool = std::sync::atomic::AtomicBool::new(false);
+thread_local!(static IN_BATCH_T: std::cell::Cell<bool> = const { std::cell::Cell::new(false) });
+
+/// Is the CURRENT thread (a flush worker) between the first allocation of a write batch and the batch's
+/// failure / publication?  Per thread: with several workers another worker's retirement writes must not
+/// be mistaken for record writes of this batch.
+pub fn in_batch() -> bool {
+    IN_BATCH_T.with(|c| c.get())
+}
 
 pub fn install() {
     EVENTS.lock().unwrap().clear();
     feoxdb::verif::install(Box::new(|seq, ev| {
         match ev.kind {
-            "alloc" => IN_BATCH.store(true, std::sync::atomic::Ordering::SeqCst),
-            "batch_fail" | "publish" | "alloc_fail" => IN_BATCH.store(false, std::sync::atomic::Ordering::SeqCst),
+            "alloc" => IN_BATCH_T.with(|c| c.set(true)),
+            "batch_fail" | "publish" | "alloc_fail" => IN_BATCH_T.with(|c| c.set(false)),
             _ => {}
         }
         let raw = RawEv {
